@@ -83,6 +83,36 @@ def contracts():
                        params={"title": "str", "namespace_id": "int"}, requires=["memo_coherent()"],
                        ensures=["logged('get_page') <= 2"], raises=["sqlite3.ProgrammingError"],
                        track_log=True))
+    cs.append(Contract(
+        target="core:Wtp.add_page", variant="plain_name", prop="C10", mode="value",
+        params={"title": "str", "namespace_id": "int", "body": "str", "redirect_to": "none",
+                "need_pre_expand": "bool", "model": "str"},
+        requires=["memo_coherent()", "'Template' in ctx.NAMESPACE_DATA", "namespace_id != 0",
+                  "namespace_id in ctx.LOCAL_NS_NAME_BY_ID", "':' not in title",
+                  "':' not in ctx.LOCAL_NS_NAME_BY_ID[namespace_id]",
+                  "ctx.LOCAL_NS_NAME_BY_ID[namespace_id] != 'Main'"],     # 'Main' names namespace 0 only
+        # a plain name is stored under local prefix + ':' + name: the key get_page computes for that name
+        # (variant plain_name) when the name has no underscore, and for prefix + ':' + name (variant local_prefix)
+        ensures=["sql_params(0)[0] == ctx.LOCAL_NS_NAME_BY_ID[namespace_id] + ':' + title"],
+        raises=[], result="none"))
+    # --- spelling lemmas, one call each (together: a plain name looked up with or without the local prefix, and
+    #     the key stored by add_page for that name, are the same string)
+    cs.append(Contract(
+        target="core:Wtp.get_page", variant="plain_name", prop="C10", mode="value",
+        params={"title": "str", "namespace_id": "int", "no_redirect": "bool"},
+        requires=["memo_coherent()", "namespace_id != 0", "namespace_id in ctx.LOCAL_NS_NAME_BY_ID",
+                  "':' not in title", "':' not in ctx.LOCAL_NS_NAME_BY_ID[namespace_id]"],
+        ensures=["implies(sql_count('select') == 1, sql_params(0)[0] == PFX + title.replace('_', ' '))"],
+        lets={"PFX": "ctx.LOCAL_NS_NAME_BY_ID[namespace_id] + ':'"},
+        raises=["sqlite3.ProgrammingError"], result=""))
+    cs.append(Contract(
+        target="core:Wtp.get_page", variant="local_prefix", prop="C10", mode="value",
+        params={"title": "str", "namespace_id": "int", "no_redirect": "bool"},
+        requires=["memo_coherent()", "namespace_id != 0", "namespace_id in ctx.LOCAL_NS_NAME_BY_ID",
+                  "title.replace('_', ' ').startswith(ctx.LOCAL_NS_NAME_BY_ID[namespace_id] + ':')",
+                  "not title.replace('_', ' ').startswith('Main:')"],
+        ensures=["implies(sql_count('select') == 1, sql_params(0)[0] == title.replace('_', ' '))"],
+        raises=["sqlite3.ProgrammingError"], result=""))
     cs.append(Contract(target="core:Wtp.close_db_conn", prop="C10", mode="frame",
                        ensures=["sql_kind(0) == 'commit'", "sql_kind(1) == 'close'"]))
     return cs
